@@ -11,7 +11,7 @@ RULE = ("cells: all cells of res 0..3 (quick) / 0..5 (thorough); Hypothesis cell
         "cell_to_boundary at k and 2k segments per edge (k=32), geodetic->authalic latitude by the closed WGS84 form, spherical "
         "area (3-D Van Oosterom-Strackee fan for res<9, Lambert-from-differences beyond; both computed and cross-checked for "
         "res 9..14), Richardson extrapolation A*=(4A(2k)-A(k))/3; |A*/(4pi/N(r)) - 1| <= 1e-6 + 4e-15 rad/L(r) (float floor of the returned degrees), declared only if the (k,2k) and "
-        "(2k,4k) estimates agree (else inconclusive, counted). cell_area(r) vs 4 pi R^2/N(r) to 1e-12. Every case is a "
+        "(2k,4k) estimates agree; if they disagree the raw ring areas at k=64,128,256 decide (violation if two of them miss by more than 1e-6 + floor + 0.02/k^2; clean-tree maximum 0.011/k^2), else inconclusive (counted). cell_area(r) vs 4 pi R^2/N(r) to 1e-12. Every case is a "
         "distinct cell; classes: pole cell, across a face edge, res>=22.")
 ASSUMPTIONS = ["curved cell edges are resolved by Richardson extrapolation over the segment count (error ~ 1/k^2)"]
 TOL0 = 1e-6
@@ -68,6 +68,18 @@ def judge_cell(cell, col, cls, enumerated=False):
         if abs(err2) > TOL and abs(err2 - err) <= 0.2 * abs(err):
             raise Violation("cell_area_differs_from_equal_share", case, observed=f"relative error {err2:.3e} (k=64/128; {err:.3e} at k=32/64)", expected=f"|error| <= {TOL:.2e}")
         if abs(err2) > TOL:
+            # The two extrapolated estimates disagree, i.e. the error is not the smooth O(1/k^2) kind. Fall back to the
+            # rings themselves: on a correct tree |A(k)/ideal - 1| <= 0.011/k^2 + float floor for every cell measured
+            # (chord-versus-arc error of the coarsest cells); a ring that misses by more than 1e-6 + floor + 0.02/k^2
+            # at two of k = 64, 128, 256 encloses the wrong area however finely it is resolved.
+            raw = {}
+            for k in (64, 128, 256):
+                raw[k] = refgeo.ring_area(_ring(cell, k, case), res, centre) / ideal - 1
+            bad = [k for k, e in raw.items() if abs(e) > TOL + 0.02 / (k * k)]
+            if len(bad) >= 2:
+                raise Violation("cell_area_differs_from_equal_share", case,
+                                observed="ring areas do not converge to the equal share: " + ", ".join(f"k={k}: {e:.3e}" for k, e in raw.items()),
+                                expected=f"|error| <= {TOL:.2e} + 0.02/k^2")
             col.count("inconclusive")
             col.case(case, nontrivial=False, classes=classes + ["inconclusive"], enumerated=enumerated)
             return
